@@ -84,7 +84,8 @@ func GetRawProtoField(protoBytes []byte, fieldNumber int) ([]byte, error) {
 				// calculate the new offset
 				offset += lenBytes
 				// extract the field value bytes
-				if offset+int(valueLen) > len(protoBytes) {
+				// NOTE: compare in uint64 - a length of 2^63 or more is negative as an int and would slip through
+				if valueLen > uint64(len(protoBytes)-offset) {
 					return nil, fmt.Errorf("field value exceeds buffer bounds")
 				}
 				// make buffer to return
